@@ -162,22 +162,28 @@ def size_of(children: list[dict], leaf_types: set[str]) -> int:
 # ---------------------------------------------------------------- building library objects
 
 
-def build_mark(schema: Any, m: list) -> Any:
+def build_mark(schema: Any, m: list, shared: bool = False) -> Any:
     from prosemirror.model import Mark
 
+    if shared:
+        # the way application code gets an all-defaults mark: MarkType.create() without attributes, which hands out
+        # one shared instance per type (where the type has one)
+        inst = schema.marks[m[0]].create(None) if all("default" in (sp or {}) for sp in (schema.marks[m[0]].spec.get("attrs") or {}).values()) else None
+        if inst is not None and inst.attrs == m[1]:
+            return inst
     return Mark(schema.marks[m[0]], copy.deepcopy(m[1]))
 
 
-def build(schema: Any, p: dict) -> Any:
+def build(schema: Any, p: dict, shared_marks: bool = False) -> Any:
     """Materialise a plain node with the raw constructors (no sorting, no checking)."""
     from prosemirror.model import Fragment, Node
     from prosemirror.model.node import TextNode
 
-    marks = [build_mark(schema, m) for m in p["m"]]
+    marks = [build_mark(schema, m, shared_marks) for m in p["m"]]
     typ = schema.nodes[p["t"]]
     if p["t"] == "text":
         return TextNode(typ, copy.deepcopy(p["a"]), p["x"], marks)
-    kids = [build(schema, c) for c in p["c"]]
+    kids = [build(schema, c, shared_marks) for c in p["c"]]
     return Node(typ, copy.deepcopy(p["a"]), Fragment(kids) if kids else None, marks)
 
 
